@@ -1,4 +1,4 @@
-from stages import beaconnet, httprelay, memboot
+from stages import beaconnet, httprelay, memboot, syncclient
 
 
 def run(ctx):
@@ -18,4 +18,6 @@ def run(ctx):
         ctx.notes.append("gRPC PublicRand / PublicRandStream stage not available in this build")
     # a node with the in-memory store starts its chain from one beacon asked from its peers
     memboot.run(ctx)
+    # chain repair (check + correct) writes to the raw store: whatever it writes verifies for its round, whatever the peers send
+    syncclient.run_repair(ctx, {"OnlyVerifiedInOrder"})
     ctx.assumptions += ["the verification oracle is scheme.VerifyBeacon with the pinned group public key, computed by the harness independently of the node under test"]
